@@ -225,6 +225,8 @@ class DimensionalityEstimator(BaseEstimator):
             check_rank=check_rank,
         )
         self.k = validate_positive_int(k, "k")
+        if self.k < 1:
+            raise ValueError("'k' should be at least 1.")
         self.mu_dim = validate_float(mu_dim, "mu_dim")
         self.mu_dens = validate_float(mu_dens, "mu_dens", optional=True)
         self.distances = validate_array(distances, "distances", optional=True)
